@@ -8,6 +8,10 @@ package main
 //     on a Code (dropping `Names` from either breaks the tie), and the expression it
 //     recomputes `isNamed` from
 //   * the function definition fields written/read (definitionFromFunction / NewFunction call)
+//   * every place of package compiler that gives a Code its `name` / `isNamed`: the composite
+//     literals of type Code (function, what `name:` is, the shape of `isNamed:`) and every
+//     assignment to a field called name / isNamed anywhere in the package (none: isNamed is
+//     not serialised, so the reload is faithful only while it is a function of the name)
 
 import (
 	"bytes"
@@ -16,6 +20,7 @@ import (
 	"go/parser"
 	"go/printer"
 	"go/token"
+	"os"
 	"reflect"
 	"sort"
 	"strconv"
@@ -242,6 +247,112 @@ func c17_genC17(repo string) string {
 	sb.WriteString("def symbolDefFields : List String := " + pairs(k7, v7) + "\n\n")
 	k8, v8 := litKeys(need("symbolFromDefinition"), "Symbol")
 	sb.WriteString("def symbolFields : List String := " + pairs(k8, v8) + "\n\n")
+	// ---- who writes Code.name / Code.isNamed (whole package compiler, test files excluded)
+	{
+		ents, err := os.ReadDir(repo + "/compiler")
+		if err != nil {
+			panic(err)
+		}
+		var names []string
+		for _, e := range ents {
+			if !e.IsDir() && strings.HasSuffix(e.Name(), ".go") && !strings.HasSuffix(e.Name(), "_test.go") {
+				names = append(names, e.Name())
+			}
+		}
+		sort.Strings(names)
+		var lits, assigns []string
+		for _, nm := range names {
+			pf, err := parser.ParseFile(fset, repo+"/compiler/"+nm, nil, 0)
+			if err != nil {
+				panic(err)
+			}
+			for _, d := range pf.Decls {
+				fd, ok := d.(*ast.FuncDecl)
+				if !ok || fd.Body == nil {
+					continue
+				}
+				ast.Inspect(fd.Body, func(n ast.Node) bool {
+					switch x := n.(type) {
+					case *ast.CompositeLit:
+						if id, ok := x.Type.(*ast.Ident); !ok || id.Name != "Code" {
+							return true
+						}
+						nameKind, nameIdent, named := "absent", "", "absent"
+						for _, el := range x.Elts {
+							kv, ok := el.(*ast.KeyValueExpr)
+							if !ok {
+								continue
+							}
+							if k, ok := kv.Key.(*ast.Ident); ok && k.Name == "name" {
+								switch v := kv.Value.(type) {
+								case *ast.BasicLit:
+									nameKind = "lit:" + v.Value
+								case *ast.Ident:
+									nameKind, nameIdent = "ident", v.Name
+								case *ast.SelectorExpr:
+									nameKind, nameIdent = "sel:."+v.Sel.Name, expr(v)
+								default:
+									nameKind = "expr"
+								}
+							}
+						}
+						for _, el := range x.Elts {
+							kv, ok := el.(*ast.KeyValueExpr)
+							if !ok {
+								continue
+							}
+							if k, ok := kv.Key.(*ast.Ident); ok && k.Name == "isNamed" {
+								// the expression with the operand that is the `name:` value written $name
+								var parts []string
+								var walk func(e ast.Expr)
+								walk = func(e ast.Expr) {
+									switch v := e.(type) {
+									case *ast.BinaryExpr:
+										parts = append(parts, "(")
+										walk(v.X)
+										parts = append(parts, v.Op.String())
+										walk(v.Y)
+										parts = append(parts, ")")
+									case *ast.ParenExpr:
+										walk(v.X)
+									case *ast.BasicLit:
+										parts = append(parts, v.Value)
+									default:
+										if expr(e) == nameIdent {
+											parts = append(parts, "$name")
+										} else {
+											parts = append(parts, "other:"+expr(e))
+										}
+									}
+								}
+								walk(kv.Value)
+								named = strings.Join(parts, " ")
+							}
+						}
+						lits = append(lits, fmt.Sprintf("(%s, %s, %s)", strconv.Quote(fd.Name.Name), strconv.Quote(nameKind), strconv.Quote(named)))
+					case *ast.AssignStmt:
+						for _, l := range x.Lhs {
+							if sel, ok := l.(*ast.SelectorExpr); ok && (sel.Sel.Name == "name" || sel.Sel.Name == "isNamed") {
+								assigns = append(assigns, fd.Name.Name+": "+expr(l))
+							}
+						}
+					case *ast.IncDecStmt:
+						if sel, ok := x.X.(*ast.SelectorExpr); ok && (sel.Sel.Name == "name" || sel.Sel.Name == "isNamed") {
+							assigns = append(assigns, fd.Name.Name+": "+expr(x.X))
+						}
+					}
+					return true
+				})
+			}
+		}
+		if len(lits) < 2 {
+			panic("compiler: composite literals of type Code not found")
+		}
+		sb.WriteString("/-- every composite literal of type Code in package compiler: (function, what `name:` is, `isNamed:` with the name operand written $name) -/\n")
+		sb.WriteString("def codeLits : List (String × String × String) := [" + strings.Join(lits, ", ") + "]\n\n")
+		sb.WriteString("/-- every assignment to a field called `name` or `isNamed` in package compiler (function: target) -/\n")
+		sb.WriteString("def codeNameAssigns : List String := " + c17_leanStrList(assigns) + "\n\n")
+	}
 	if len(k1) < 5 || len(k2) < 5 || len(k3) < 3 || len(k4) < 3 || len(k5) < 4 || len(k6) < 3 {
 		panic("store.go: composite literals of stateFromCode/codeFromState/... not found")
 	}
